@@ -19,7 +19,7 @@ ASSUMPTIONS = [
 
 
 def run():
-  return tvrun.run_tv('C02', {'agg': (96, 640, None), 'sugarbase': (24, 160, None), 'kfc02': (2, 2, None)}, FUNCTIONS, ASSUMPTIONS, 'DESIGN.md §3 C02')
+  return tvrun.run_tv('C02', {'agg': (96, 6000, None), 'sugarbase': (24, 1500, None), 'kfc02': (2, 2, None)}, FUNCTIONS, ASSUMPTIONS, 'DESIGN.md §3 C02')
 
 
 def replay(path):
